@@ -30,6 +30,7 @@ def opOfJson (j : J) : Op :=
   | "replace_types" =>
     .replaceTypes ((j.arrD "entries").map entryOfJson) ((j.arrD "dir_entries").map dirEntryOfJson)
       (match j.get? "healed" with | some (.obj kvs) => some (Driver.schemaOfJson (.obj kvs)) | _ => none)
+  | "assign_structure" => .assignStructure (Driver.schemaOfJson (j.getD "schema")) (j.boolD "seen")
   | _ => .validate
 
 /-- outcomes, and after every step the cache flag and the verdict of a fresh validation -/
